@@ -572,7 +572,7 @@ func c20Prefetch(sched string, rng *rand.Rand, o *ownOutcome) error {
 		names = append(names, n)
 		allowed[hx.QuestionKey(hx.BuildQuery(0, n, 1, 1, true))] = true
 	}
-	env.KeyedAllowed = allowed // complete before the first query (read by the fake upstream's goroutines)
+	env.SetKeyedAllowed(allowed) // complete before the first query (read by the fake upstream's goroutines)
 	stored, expire := -100*time.Second, 10*time.Second // 10 s of 110 s left: the last quarter
 	if sched == "hit-fresh" {
 		stored, expire = -time.Second, 100*time.Second
